@@ -75,6 +75,10 @@ def catalogue():
     C('decode', lambda A: penman.decode(A['s'], model=A['m']))
     C('parse', lambda A: penman.parse(A['s']))
     C('loads', lambda A: penman.loads(A['s'] + '\n\n' + A['s'], model=A['m']))
+    # a caller-owned LIST OF LINES is an argument like any other (iterdecode / iterparse accept any iterable of lines)
+    C('iterdecode_lines', lambda A: list(penman.iterdecode(A['lines'], model=A['m'])))
+    C('iterparse_lines', lambda A: list(penman.iterparse(A['lines'])))
+    C('codec_iterdecode_lines', lambda A: list(penman.PENMANCodec(model=A['m']).iterdecode(A['lines'])))
     C('dumps', lambda A: penman.dumps([A['g'], A['g']], model=A['m']))
     C('encode', lambda A: penman.encode(A['g'], model=A['m']))
     C('encode_top', lambda A: penman.encode(A['g'], top=sorted(A['g'].variables(), key=repr)[-1], model=A['m']))
@@ -161,7 +165,13 @@ def make_args(rng_seed, idx, force_model=None):
     g2 = penman.layout.interpret(penman.parse(s2), m)
     if rng.random() < .4:   # overlapping operands for | and -
         g2 = penman.Graph(g2.triples + g.triples[: len(g.triples) // 2], epidata={**g2.epidata}, metadata={'k': 'v'})
-    return {'s': s, 't': t, 'g': g, 'g2': g2, 'm': m}
+    lines = (s + '\n\n' + s2).splitlines(keepends=True)
+    r = rng.random()
+    if r < .35:
+        lines[0] = '\ufeff' + lines[0]          # a byte-order mark left by the editor
+    elif r < .5:
+        lines = ['  \t' + ln.rstrip('\n') + '  \r\n' for ln in lines]
+    return {'s': s, 't': t, 'g': g, 'g2': g2, 'm': m, 'lines': lines}
 
 
 def scribble(r, A):
